@@ -155,12 +155,13 @@ structure Facts where
   countMissingOk : Tri
   setErrSingle : Tri
   saveReleasesImmediate : Tri
+  wireExpNe0 : Tri
   deriving DecidableEq, Repr
 
 def kvFacts (f : Facts) : Hv.C06.Facts :=
   ⟨f.resetsFlags, f.metaCompare, f.tsPositive, f.voidClears, f.pushChecksType, f.setSliceReplaces,
    f.u32delReleases, f.u32delChecksType, f.incFailClean, f.noEmptyLive, f.arekAllFalse, f.countMissingOk,
-   f.setErrSingle, f.saveReleasesImmediate⟩
+   f.setErrSingle, f.saveReleasesImmediate, f.wireExpNe0⟩
 
 def cfgOf (f : Facts) : Cfg :=
   { Hv.C06.cfgOf (kvFacts f) with encoding := match f.encoding with | .typeTagged => .typeTagged | _ => .gobOmitZero }
